@@ -174,4 +174,304 @@ theorem sortCoord_cases (dd t : Nat) :
 def sortedList (hash dd : Nat) : List Nat :=
   (List.range (4 * (2 ^ dd - 1))).map fun t => cellVal hash dd (sortCoord dd t)
 
+/-! ## positions written by the loop -/
+
+theorem pow_split {dd : Nat} (h1 : 1 ≤ dd) : 2 ^ dd = 2 * 2 ^ (dd - 1) := by
+  obtain ⟨e, rfl⟩ : ∃ e, dd = e + 1 := ⟨dd - 1, by omega⟩
+  rw [Nat.pow_succ]; simp; omega
+
+theorem pow_succ_le_of_lt {b e : Nat} (h : 2 ^ b < 2 ^ e) : 2 ^ (b + 1) ≤ 2 ^ e :=
+  Nat.pow_le_pow_right (by decide) ((Nat.pow_lt_pow_iff_right (by decide)).1 h)
+
+theorem bracket_unique {b b' x : Nat} (h1 : 2 ^ b ≤ x) (h2 : x < 2 ^ (b + 1)) (h1' : 2 ^ b' ≤ x) (h2' : x < 2 ^ (b' + 1)) :
+    b = b' := by
+  have a1 : b < b' + 1 := (Nat.pow_lt_pow_iff_right (a := 2) (by decide)).1 (by omega)
+  have a2 : b' < b + 1 := (Nat.pow_lt_pow_iff_right (a := 2) (by decide)).1 (by omega)
+  omega
+
+section positions
+variable (dd b x : Nat) (h1 : 1 ≤ dd) (hb1 : 2 ^ b ≤ x) (hb2 : x < 2 ^ (b + 1)) (hx : x < 2 ^ (dd - 1))
+include h1 hb1 hb2 hx
+
+omit h1 hb2 in
+theorem blk_le : 2 ^ (b + 1) ≤ 2 ^ (dd - 1) := pow_succ_le_of_lt (by omega)
+
+theorem sc_k0 : sortCoord dd (x + 2 ^ b - 1) = (x, 0) := by
+  have hs := pow_split h1
+  have hl := blk_le dd b x hb1 hx
+  have e1 : 2 ^ (b + 1) = 2 * 2 ^ b := by rw [Nat.pow_succ]; omega
+  rcases sortCoord_cases dd (x + 2 ^ b - 1) with ⟨_, e⟩ | ⟨_, _, _⟩ | ⟨_, _, _⟩ | ⟨_, _, _⟩ | ⟨_, _, _⟩ | ⟨_, _⟩
+  · rw [e, q0_x b x hb1 hb2]
+  all_goals omega
+
+theorem sc_k1 : sortCoord dd (x + 2 ^ (b + 1) - 1) = (0, x) := by
+  have hs := pow_split h1
+  have hl := blk_le dd b x hb1 hx
+  have e1 : 2 ^ (b + 1) = 2 * 2 ^ b := by rw [Nat.pow_succ]; omega
+  rcases sortCoord_cases dd (x + 2 ^ (b + 1) - 1) with ⟨_, e⟩ | ⟨_, _, _⟩ | ⟨_, _, _⟩ | ⟨_, _, _⟩ | ⟨_, _, _⟩ | ⟨_, _⟩
+  · rw [e, q0_y b x hb1 hb2]
+  all_goals omega
+
+theorem sc_k2 : sortCoord dd (2 ^ dd - 1 + 2 ^ (dd - 1) + x - 1) = (2 ^ dd - 1, x) := by
+  have hs := pow_split h1
+  have hp := Nat.two_pow_pos b
+  rcases sortCoord_cases dd (2 ^ dd - 1 + 2 ^ (dd - 1) + x - 1) with
+    ⟨_, _⟩ | ⟨_, _, _⟩ | ⟨_, _, e⟩ | ⟨_, _, _⟩ | ⟨_, _, _⟩ | ⟨_, _⟩
+  case inr.inr.inl => rw [e]; congr 1; omega
+  all_goals omega
+
+theorem sc_k3 : sortCoord dd (2 * (2 ^ dd - 1) + 2 ^ (dd - 1) + x - 1) = (x, 2 ^ dd - 1) := by
+  have hs := pow_split h1
+  have hp := Nat.two_pow_pos b
+  rcases sortCoord_cases dd (2 * (2 ^ dd - 1) + 2 ^ (dd - 1) + x - 1) with
+    ⟨_, _⟩ | ⟨_, _, _⟩ | ⟨_, _, _⟩ | ⟨_, _, _⟩ | ⟨_, _, e⟩ | ⟨_, _⟩
+  case inr.inr.inr.inr.inl => rw [e]; congr 1; omega
+  all_goals omega
+
+theorem sc_k0' : sortCoord dd (4 * (2 ^ dd - 1) - (x + 2 ^ b)) = (2 ^ dd - 1 - x, 2 ^ dd - 1) := by
+  have hs := pow_split h1
+  have hl := blk_le dd b x hb1 hx
+  have hp := Nat.two_pow_pos b
+  have e1 : 2 ^ (b + 1) = 2 * 2 ^ b := by rw [Nat.pow_succ]; omega
+  rcases sortCoord_cases dd (4 * (2 ^ dd - 1) - (x + 2 ^ b)) with
+    ⟨_, _⟩ | ⟨_, _, _⟩ | ⟨_, _, _⟩ | ⟨_, _, _⟩ | ⟨_, _, _⟩ | ⟨_, e⟩
+  case inr.inr.inr.inr.inr =>
+    rw [e, show 4 * (2 ^ dd - 1) - 1 - (4 * (2 ^ dd - 1) - (x + 2 ^ b)) = x + 2 ^ b - 1 by omega, q0_x b x hb1 hb2]
+    rfl
+  all_goals omega
+
+theorem sc_k1' : sortCoord dd (4 * (2 ^ dd - 1) - (x + 2 ^ (b + 1))) = (2 ^ dd - 1, 2 ^ dd - 1 - x) := by
+  have hs := pow_split h1
+  have hl := blk_le dd b x hb1 hx
+  have hp := Nat.two_pow_pos b
+  have e1 : 2 ^ (b + 1) = 2 * 2 ^ b := by rw [Nat.pow_succ]; omega
+  rcases sortCoord_cases dd (4 * (2 ^ dd - 1) - (x + 2 ^ (b + 1))) with
+    ⟨_, _⟩ | ⟨_, _, _⟩ | ⟨_, _, _⟩ | ⟨_, _, _⟩ | ⟨_, _, _⟩ | ⟨_, e⟩
+  case inr.inr.inr.inr.inr =>
+    rw [e, show 4 * (2 ^ dd - 1) - 1 - (4 * (2 ^ dd - 1) - (x + 2 ^ (b + 1))) = x + 2 ^ (b + 1) - 1 by omega,
+      q0_y b x hb1 hb2]
+    rfl
+  all_goals omega
+
+theorem sc_k2' : sortCoord dd (4 * (2 ^ dd - 1) - (2 ^ dd - 1 + 2 ^ (dd - 1) + x)) = (0, 2 ^ dd - 1 - x) := by
+  have hs := pow_split h1
+  have hp := Nat.two_pow_pos b
+  rcases sortCoord_cases dd (4 * (2 ^ dd - 1) - (2 ^ dd - 1 + 2 ^ (dd - 1) + x)) with
+    ⟨_, _⟩ | ⟨_, _, _⟩ | ⟨_, _, _⟩ | ⟨_, _, e⟩ | ⟨_, _, _⟩ | ⟨_, _⟩
+  case inr.inr.inr.inl => rw [e]; congr 1; omega
+  all_goals omega
+
+theorem sc_k3' : sortCoord dd (4 * (2 ^ dd - 1) - (2 * (2 ^ dd - 1) + 2 ^ (dd - 1) + x)) = (2 ^ dd - 1 - x, 0) := by
+  have hs := pow_split h1
+  have hp := Nat.two_pow_pos b
+  rcases sortCoord_cases dd (4 * (2 ^ dd - 1) - (2 * (2 ^ dd - 1) + 2 ^ (dd - 1) + x)) with
+    ⟨_, _⟩ | ⟨_, _, e⟩ | ⟨_, _, _⟩ | ⟨_, _, _⟩ | ⟨_, _, _⟩ | ⟨_, _⟩
+  case inr.inl => rw [e]; congr 1; omega
+  all_goals omega
+
+end positions
+
+theorem sc_south (dd : Nat) (h1 : 1 ≤ dd) : sortCoord dd 0 = (0, 0) := by
+  have hs := pow_split h1
+  have hp := Nat.two_pow_pos (dd - 1)
+  rcases sortCoord_cases dd 0 with ⟨_, e⟩ | ⟨_, _, _⟩ | ⟨_, _, _⟩ | ⟨_, _, _⟩ | ⟨_, _, _⟩ | ⟨_, _⟩
+  · rw [e, q0_zero]
+  all_goals omega
+
+theorem sc_east (dd : Nat) (h1 : 1 ≤ dd) : sortCoord dd (2 ^ dd - 1 + 2 ^ (dd - 1) - 1) = (2 ^ dd - 1, 0) := by
+  have hs := pow_split h1
+  have hp := Nat.two_pow_pos (dd - 1)
+  rcases sortCoord_cases dd (2 ^ dd - 1 + 2 ^ (dd - 1) - 1) with
+    ⟨_, _⟩ | ⟨_, _, e⟩ | ⟨_, _, _⟩ | ⟨_, _, _⟩ | ⟨_, _, _⟩ | ⟨_, _⟩
+  case inr.inl => rw [e]; congr 1; omega
+  all_goals omega
+
+theorem sc_west (dd : Nat) (h1 : 1 ≤ dd) : sortCoord dd (2 * (2 ^ dd - 1) + 2 ^ (dd - 1) - 1) = (0, 2 ^ dd - 1) := by
+  have hs := pow_split h1
+  have hp := Nat.two_pow_pos (dd - 1)
+  rcases sortCoord_cases dd (2 * (2 ^ dd - 1) + 2 ^ (dd - 1) - 1) with
+    ⟨_, _⟩ | ⟨_, _, _⟩ | ⟨_, _, _⟩ | ⟨_, _, e⟩ | ⟨_, _, _⟩ | ⟨_, _⟩
+  case inr.inr.inr.inl => rw [e]; congr 1; omega
+  all_goals omega
+
+theorem sc_north (dd : Nat) (h1 : 1 ≤ dd) : sortCoord dd (4 * (2 ^ dd - 1) - 1) = (2 ^ dd - 1, 2 ^ dd - 1) := by
+  have hs := pow_split h1
+  have hp := Nat.two_pow_pos (dd - 1)
+  rcases sortCoord_cases dd (4 * (2 ^ dd - 1) - 1) with
+    ⟨_, _⟩ | ⟨_, _, _⟩ | ⟨_, _, _⟩ | ⟨_, _, _⟩ | ⟨_, _, _⟩ | ⟨_, e⟩
+  case inr.inr.inr.inr.inr =>
+    rw [e, show 4 * (2 ^ dd - 1) - 1 - (4 * (2 ^ dd - 1) - 1) = 0 by omega, q0_zero]
+    rfl
+  all_goals omega
+
+/-! ## the array writes -/
+
+/-- the checked array write of the model (`none` = index out of range = panic) -/
+def setOpt (a : Array Nat) (k v : Nat) : Option (Array Nat) := if k < a.size then some (a.set! k v) else none
+
+/-- value expected at position `t` of the result -/
+def sortVal (hash dd t : Nat) : Nat := cellVal hash dd (sortCoord dd t)
+
+/-- the array has the final size and every position in `P` already holds its final value -/
+def Good (S : Nat) (T : Nat → Nat) (P : Nat → Prop) (a : Array Nat) : Prop :=
+  a.size = S ∧ ∀ t, P t → a[t]? = some (T t)
+
+theorem write_good {S : Nat} {T : Nat → Nat} {P : Nat → Prop} {a : Array Nat} (g : Good S T P a) (p v : Nat)
+    (hp : p < S) (hv : v = T p) : ∃ a', setOpt a p v = some a' ∧ Good S T (fun t => P t ∨ t = p) a' := by
+  refine ⟨a.set! p v, by simp [setOpt, g.1, hp], by simp [g.1], ?_⟩
+  intro t ht
+  rw [Array.set!_eq_setIfInBounds, Array.getElem?_setIfInBounds]
+  by_cases e : p = t
+  · subst e; simp [g.1, hp, hv]
+  · rw [if_neg e]
+    rcases ht with h | h
+    · exact g.2 t h
+    · omega
+
+theorem Good.mono {S : Nat} {T : Nat → Nat} {P Q : Nat → Prop} {a : Array Nat} (g : Good S T P a)
+    (h : ∀ t, Q t → P t) : Good S T Q a := ⟨g.1, fun t ht => g.2 t (h t ht)⟩
+
+/-- positions written before the loop reaches `x = X`: the four corners, and eight positions per earlier `x` -/
+def covered (dd X t : Nat) : Prop :=
+  t = 0 ∨ t = 2 ^ dd - 1 + 2 ^ (dd - 1) - 1 ∨ t = 2 * (2 ^ dd - 1) + 2 ^ (dd - 1) - 1 ∨ t = 4 * (2 ^ dd - 1) - 1 ∨
+  ∃ x b, 1 ≤ x ∧ x < X ∧ 2 ^ b ≤ x ∧ x < 2 ^ (b + 1) ∧
+    (t = x + 2 ^ b - 1 ∨ t = x + 2 ^ (b + 1) - 1 ∨ t = 2 ^ dd - 1 + 2 ^ (dd - 1) + x - 1 ∨
+     t = 2 * (2 ^ dd - 1) + 2 ^ (dd - 1) + x - 1 ∨
+     t = 4 * (2 ^ dd - 1) - (x + 2 ^ b) ∨ t = 4 * (2 ^ dd - 1) - (x + 2 ^ (b + 1)) ∨
+     t = 4 * (2 ^ dd - 1) - (2 ^ dd - 1 + 2 ^ (dd - 1) + x) ∨
+     t = 4 * (2 ^ dd - 1) - (2 * (2 ^ dd - 1) + 2 ^ (dd - 1) + x))
+
+theorem covered_succ (dd x b t : Nat) (hb1 : 2 ^ b ≤ x) (hb2 : x < 2 ^ (b + 1)) (h : covered dd (x + 1) t) :
+    ((((((((covered dd x t ∨ t = x + 2 ^ b - 1) ∨ t = x + 2 ^ (b + 1) - 1) ∨ t = 2 ^ dd - 1 + 2 ^ (dd - 1) + x - 1) ∨
+     t = 2 * (2 ^ dd - 1) + 2 ^ (dd - 1) + x - 1) ∨
+     t = 4 * (2 ^ dd - 1) - (x + 2 ^ b)) ∨ t = 4 * (2 ^ dd - 1) - (x + 2 ^ (b + 1))) ∨
+     t = 4 * (2 ^ dd - 1) - (2 ^ dd - 1 + 2 ^ (dd - 1) + x)) ∨
+     t = 4 * (2 ^ dd - 1) - (2 * (2 ^ dd - 1) + 2 ^ (dd - 1) + x)) := by
+  rcases h with h | h | h | h | ⟨x', b', hx1, hx2, hb1', hb2', h⟩
+  · simp [covered, h]
+  · simp [covered, h]
+  · simp [covered, h]
+  · simp [covered, h]
+  · by_cases hxx : x' = x
+    · subst hxx
+      have := bracket_unique hb1 hb2 hb1' hb2'
+      subst this
+      rcases h with h | h | h | h | h | h | h | h <;> simp [h]
+    · have : covered dd x t := Or.inr (Or.inr (Or.inr (Or.inr ⟨x', b', hx1, by omega, hb1', hb2', h⟩)))
+      simp [this]
+
+/-! ## the values written -/
+
+section values
+variable (cfg : Cfg) (hbmi : cfg.bmi = false) (c : ZocClass) (dd x : Nat) (hdc : dd ≤ c.bits) (hx : x < 2 ^ dd)
+include hx
+
+theorem and_xmask : interleave x (2 ^ dd - 1 - x) &&& interleave (2 ^ dd - 1) 0 = interleave x 0 := by
+  rw [interleave_and, Nat.and_two_pow_sub_one_eq_mod, Nat.mod_eq_of_lt hx, Nat.and_zero]
+
+theorem and_ymask : interleave x (2 ^ dd - 1 - x) &&& interleave 0 (2 ^ dd - 1) = interleave 0 (2 ^ dd - 1 - x) := by
+  rw [interleave_and, Nat.and_two_pow_sub_one_eq_mod, Nat.mod_eq_of_lt (by omega), Nat.and_zero]
+
+include hbmi hdc in
+theorem ij2h_val : Layer.ij2h cfg c x (2 ^ dd - 1 - x) = interleave x (2 ^ dd - 1 - x) := by
+  simp only [Layer.ij2h, hbmi]
+  exact lut_ij2h_interleave c _ _ (pow_le_bits hdc hx) (pow_le_bits hdc (by omega))
+
+end values
+
+/-! ## the loop -/
+
+/-- loop invariant: `lim = 2^(b+1)` is the end of the current z-order block, `k0..k3` are the next positions of the four
+    forward runs, and everything written so far is final -/
+def Inv (hash dd : Nat) (st : IesSt) : Prop :=
+  ∃ b, st.lim = 2 ^ (b + 1) ∧ 2 ^ b ≤ st.x ∧ st.x < 2 ^ (b + 1) ∧ st.x ≤ 2 ^ (dd - 1) ∧
+    st.k0 = st.x + 2 ^ b - 1 ∧ st.k1 = st.x + 2 ^ (b + 1) - 1 ∧
+    st.k2 = 2 ^ dd - 1 + 2 ^ (dd - 1) + st.x - 1 ∧ st.k3 = 2 * (2 ^ dd - 1) + 2 ^ (dd - 1) + st.x - 1 ∧
+    Good (4 * (2 ^ dd - 1)) (sortVal hash dd) (covered dd st.x) st.res
+
+theorem loop_spec (cfg : Cfg) (hbmi : cfg.bmi = false) (c : ZocClass) (hash dd : Nat) (h1 : 1 ≤ dd) (hd : dd ≤ 29)
+    (hdc : dd ≤ c.bits) (fuel : Nat) (st : IesSt) (hinv : Inv hash dd st) (hf : 2 ^ (dd - 1) ≤ st.x + fuel) :
+    ∃ out, internalEdgeSorted.loop cfg c (interleave (2 ^ dd - 1) 0) (interleave 0 (2 ^ dd - 1)) (hash * 4 ^ dd)
+        (2 ^ dd - 1) (2 ^ (dd - 1)) (4 * (2 ^ dd - 1)) setOpt fuel st = some out ∧
+      Good (4 * (2 ^ dd - 1)) (sortVal hash dd) (covered dd (2 ^ (dd - 1))) out := by
+  induction fuel generalizing st with
+  | zero =>
+    obtain ⟨b, _, _, _, hle, _, _, _, _, g⟩ := hinv
+    have : st.x = 2 ^ (dd - 1) := by omega
+    rw [this] at g
+    exact ⟨st.res, by rw [internalEdgeSorted.loop], g⟩
+  | succ fuel ih =>
+    obtain ⟨x, lim, k0, k1, k2, k3, res⟩ := st
+    obtain ⟨b, hlim, hb1, hb2, hle, hk0, hk1, hk2, hk3, g⟩ := hinv
+    simp only at hlim hb1 hb2 hle hk0 hk1 hk2 hk3 g hf
+    subst hlim hk0 hk1 hk2 hk3
+    rw [internalEdgeSorted.loop]
+    by_cases hx : x < 2 ^ (dd - 1)
+    · have hs := pow_split h1
+      have hl := blk_le dd b x hb1 hx
+      have e1 : 2 ^ (b + 1) = 2 * 2 ^ b := by rw [Nat.pow_succ]; omega
+      have hp := Nat.two_pow_pos b
+      have hxN : x < 2 ^ dd := by omega
+      have hd32 : dd ≤ 32 := by omega
+      have hmN : 2 ^ dd - 1 < 2 ^ dd := by omega
+      have hcx : 2 ^ dd - 1 - x < 2 ^ dd := by omega
+      rw [if_neg (by simpa using hx)]
+      simp only [ij2h_val cfg hbmi c dd x hdc hxN, and_xmask dd x hxN, and_ymask dd x hxN, interleave_shl,
+        interleave_shr]
+      rw [if_neg (by omega)]
+      have p5 : 4 * (2 ^ dd - 1) - (x + 2 ^ b - 1 + 1) = 4 * (2 ^ dd - 1) - (x + 2 ^ b) := by omega
+      have p6 : 4 * (2 ^ dd - 1) - (x + 2 ^ (b + 1) - 1 + 1) = 4 * (2 ^ dd - 1) - (x + 2 ^ (b + 1)) := by omega
+      have p7 : 4 * (2 ^ dd - 1) - (2 ^ dd - 1 + 2 ^ (dd - 1) + x - 1 + 1) =
+          4 * (2 ^ dd - 1) - (2 ^ dd - 1 + 2 ^ (dd - 1) + x) := by omega
+      have p8 : 4 * (2 ^ dd - 1) - (2 * (2 ^ dd - 1) + 2 ^ (dd - 1) + x - 1 + 1) =
+          4 * (2 ^ dd - 1) - (2 * (2 ^ dd - 1) + 2 ^ (dd - 1) + x) := by omega
+      rw [p5, p6, p7, p8]
+      obtain ⟨a1, w1, g1⟩ := write_good g (x + 2 ^ b - 1) (hash * 4 ^ dd ||| interleave x 0) (by omega)
+        (by rw [sortVal, sc_k0 dd b x h1 hb1 hb2 hx]; exact or_cell hash dd x 0 hd32 hxN (by omega))
+      obtain ⟨a2, w2, g2⟩ := write_good g1 (x + 2 ^ (b + 1) - 1) (hash * 4 ^ dd ||| interleave 0 x) (by omega)
+        (by rw [sortVal, sc_k1 dd b x h1 hb1 hb2 hx]; exact or_cell hash dd 0 x hd32 (by omega) hxN)
+      obtain ⟨a3, w3, g3⟩ := write_good g2 (2 ^ dd - 1 + 2 ^ (dd - 1) + x - 1)
+        (hash * 4 ^ dd ||| interleave 0 x ||| interleave (2 ^ dd - 1) 0) (by omega)
+        (by rw [sortVal, sc_k2 dd b x h1 hb1 hb2 hx]
+            exact or_or_cell hash dd 0 x (2 ^ dd - 1) 0 (2 ^ dd - 1) x hd32 hmN hxN (by simp) (by simp))
+      obtain ⟨a4, w4, g4⟩ := write_good g3 (2 * (2 ^ dd - 1) + 2 ^ (dd - 1) + x - 1)
+        (hash * 4 ^ dd ||| interleave 0 (2 ^ dd - 1) ||| interleave x 0) (by omega)
+        (by rw [sortVal, sc_k3 dd b x h1 hb1 hb2 hx]
+            exact or_or_cell hash dd 0 (2 ^ dd - 1) x 0 x (2 ^ dd - 1) hd32 hxN hmN (by simp) (by simp))
+      obtain ⟨a5, w5, g5⟩ := write_good g4 (4 * (2 ^ dd - 1) - (x + 2 ^ b))
+        (hash * 4 ^ dd ||| interleave 0 (2 ^ dd - 1) ||| interleave (2 ^ dd - 1 - x) 0) (by omega)
+        (by rw [sortVal, sc_k0' dd b x h1 hb1 hb2 hx]
+            exact or_or_cell hash dd 0 (2 ^ dd - 1) (2 ^ dd - 1 - x) 0 (2 ^ dd - 1 - x) (2 ^ dd - 1) hd32 hcx hmN
+              (by simp) (by simp))
+      obtain ⟨a6, w6, g6⟩ := write_good g5 (4 * (2 ^ dd - 1) - (x + 2 ^ (b + 1)))
+        (hash * 4 ^ dd ||| interleave 0 (2 ^ dd - 1 - x) ||| interleave (2 ^ dd - 1) 0) (by omega)
+        (by rw [sortVal, sc_k1' dd b x h1 hb1 hb2 hx]
+            exact or_or_cell hash dd 0 (2 ^ dd - 1 - x) (2 ^ dd - 1) 0 (2 ^ dd - 1) (2 ^ dd - 1 - x) hd32 hmN hcx
+              (by simp) (by simp))
+      obtain ⟨a7, w7, g7⟩ := write_good g6 (4 * (2 ^ dd - 1) - (2 ^ dd - 1 + 2 ^ (dd - 1) + x))
+        (hash * 4 ^ dd ||| interleave 0 (2 ^ dd - 1 - x)) (by omega)
+        (by rw [sortVal, sc_k2' dd b x h1 hb1 hb2 hx]; exact or_cell hash dd 0 _ hd32 (by omega) hcx)
+      obtain ⟨a8, w8, g8⟩ := write_good g7 (4 * (2 ^ dd - 1) - (2 * (2 ^ dd - 1) + 2 ^ (dd - 1) + x))
+        (hash * 4 ^ dd ||| interleave (2 ^ dd - 1 - x) 0) (by omega)
+        (by rw [sortVal, sc_k3' dd b x h1 hb1 hb2 hx]; exact or_cell hash dd _ 0 hd32 hcx (by omega))
+      have g' : Good (4 * (2 ^ dd - 1)) (sortVal hash dd) (covered dd (x + 1)) a8 :=
+        g8.mono (fun t ht => covered_succ dd x b t hb1 hb2 ht)
+      rw [w1, Option.bind_some, w2, Option.bind_some, w3, Option.bind_some, w4, Option.bind_some, w5, Option.bind_some,
+        w6, Option.bind_some, w7, Option.bind_some, w8, Option.bind_some]
+      by_cases hlim : x + 1 = 2 ^ (b + 1)
+      · rw [if_pos hlim]
+        have hb' : b + 1 ≤ dd - 1 := (Nat.pow_le_pow_iff_right (a := 2) (by decide)).1 (by omega)
+        have e2 : 2 ^ (b + 1 + 1) = 2 * 2 ^ (b + 1) := by rw [Nat.pow_succ]; omega
+        have hlt : 2 ^ (b + 1 + 1) < 4294967296 :=
+          calc 2 ^ (b + 1 + 1) < 2 ^ 32 := Nat.pow_lt_pow_right (by decide) (by omega)
+            _ = 4294967296 := by decide
+        have hsh : 2 ^ (b + 1) <<< 1 % 4294967296 = 2 ^ (b + 1 + 1) := by
+          rw [Nat.shiftLeft_eq, Nat.pow_one, Nat.mul_comm, ← e2, Nat.mod_eq_of_lt hlt]
+        refine ih _ ⟨b + 1, ?_, ?_, ?_, ?_, ?_, ?_, ?_, ?_, g'⟩ ?_ <;> dsimp only <;> omega
+      · rw [if_neg hlim]
+        refine ih _ ⟨b, ?_, ?_, ?_, ?_, ?_, ?_, ?_, ?_, g'⟩ ?_ <;> dsimp only <;> omega
+    · have hxe : x = 2 ^ (dd - 1) := by omega
+      rw [hxe] at g
+      exact ⟨res, by simp only [hx]; rfl, g⟩
+
 end Hpx.EdgeInternal
